@@ -26,6 +26,8 @@ BUDGET = {
     'thorough': {'enum': ['small'], 'hyp': 160000, 'shards': 16},
 }
 
+# spec classes whose port namespaces use another namespace separator (PortNamespace.NAMESPACE_SEPARATOR)
+SEPARATORS = ['__', '/']
 VALUES = [1, -1, 's', 'long', None, 2.5, [1], {'k': 1}, {'k': 's'}, {}, True, {'c': {'a': 1}, 'l': 's'}, {'l': 's', 'c': {'a': 1}}, {'c': {'a': 1}, 'l': 2}, {'c': {'a': {'b': 1}}, 'd': {'e': 's'}}]
 
 
@@ -44,8 +46,19 @@ def enumerate_cases(tier, scope):
                 for path in paths:
                     for value in (1, 's', -1, {'k': 1}, {'c': {'a': 1}, 'l': 's'}, {'c': {'a': 1}, 'l': 2}):
                         yield {'spec': tree, 'emissions': [[path, value]], 'ret': 0}
+                for value in ({'q': 1}, {'q': 's'}, {'x': 1}, {'x': 's'}, {'x': {'y': 1}}, {'x': {'y': 's'}}):
+                    yield {'spec': tree, 'emissions': [['sub', value]], 'ret': 0}
+                    # the same onto a declared namespace without any explicit port
+                    tree2 = copy.deepcopy(tree)
+                    tree2['ports']['ext'] = pm.ns({}, **sub)
+                    yield {'spec': tree2, 'emissions': [['a', 1], ['ext', value]], 'ret': 0}
                 yield {'spec': tree, 'emissions': [['a', 1], ['sub.q', 2]], 'ret': 5}
                 yield {'spec': tree, 'emissions': [], 'ret': 5}
+    # a three-level tree under spec classes with another namespace separator
+    deep = pm.ns({'r': pm.ns({'s': pm.ns({'e': pm.port(required=True, valid_type='int')}, valid_type='int'), 'x': pm.ns({}, valid_type='int', required=False)}), 'a': pm.port(required=False)})
+    for sep in SEPARATORS:
+        for emissions in ([['r.s.e', 1]], [['r.s.e', 's']], [['r.s.e', 1], ['r.x.a', 1]], [['r.s.e', 1], ['r.x.a', 's']], [['r.s.e', 1], ['r.x.n.m', 2]], [['r.s.e', 1], ['r.s.dyn', 3], ['a', 0]], [['a', 1]]):
+            yield {'spec': deep, 'emissions': emissions, 'ret': 0, 'sep': sep}
 
 
 @st.composite
@@ -112,8 +125,15 @@ def _cases(draw, tier):
             continue
         is_declared_ns = (path, 'ns') in declared
         if is_declared_ns:
-            value = draw(st.sampled_from([{}, {'x': 1}, {'a': 's'}]))
-            continue  # emitting onto a namespace name is left out: it would make the namespace a leaf
+            # a whole mapping emitted onto a declared namespace: the only emission into that subtree
+            if any(other == path or other.startswith(path + '.') for other in leaves) or any(sp.startswith(path + '.') for sp in spaces if (sp, 'ns') not in declared):
+                continue
+            value = draw(st.sampled_from([{'x': 1}, {'a': 's'}, {'a': 1}, {'x': 'many'}, {'a': 1, 'b': 2, 'c': 3}, {'x': {'y': 1}}, {'b': {'a': 's'}}]))
+            leaves.add(path)
+            for p in prefixes:
+                spaces.add(p)
+            emissions.append([path, value])
+            continue
         value = draw(st.sampled_from(VALUES))
         if isinstance(value, dict) and value:
             # a non-empty dict as dynamic value creates sub-paths: keep it out of namespaces used as path prefixes
@@ -123,7 +143,10 @@ def _cases(draw, tier):
         for p in prefixes:
             spaces.add(p)
         emissions.append([path, value])
-    return {'spec': tree, 'emissions': emissions, 'ret': draw(st.sampled_from([0, 5, None, 'r']))}
+    case = {'spec': tree, 'emissions': emissions, 'ret': draw(st.sampled_from([0, 5, None, 'r']))}
+    if draw(st.integers(0, 3)) == 0:
+        case['sep'] = draw(st.sampled_from(SEPARATORS))
+    return case
 
 
 def strategy(tier):
@@ -143,6 +166,9 @@ def execute(case):
         'spec': {'outputs': tree},
         'snapshot_outputs': True,
     }
+    sep = case.get('sep')
+    if sep:
+        program['spec']['sep'] = sep
     run_case = {'program': program, 'schedule': []}
     model_tree = copy.deepcopy(tree)
     model_outputs = {}
@@ -204,12 +230,16 @@ def execute(case):
                 v('outputs', f"outputs {views['outputs']!r} expected {model_outputs!r}")
             if views['is_successful'] != ['ok', model_ok] or views['successful'] != ['ok', model_ok]:
                 v('successful', f"is_successful={views['is_successful']} successful()={views['successful']}, the model says {model_ok} for outputs {model_outputs!r}")
-            got_pairs = [[n[0], n[1]] for n in notes]
+            got_pairs = [[n[0].replace(sep, '.') if sep else n[0], n[1]] for n in notes]
             if got_pairs != accepted_pairs:
                 v('listener-emissions', f'listeners saw {got_pairs} expected {accepted_pairs}')
     classes = ['successful' if model_ok else 'unsuccessful', 'rejected:%d' % min(n_rejected, 3), 'emissions:%d' % min(len(emissions), 4)]
     if any('.' in p for p, _ in emissions):
         classes.append('nested-path')
+    if sep:
+        classes.append('custom-separator')
+    if any((p, 'ns') in set(_paths(tree)) for p, _ in emissions):
+        classes.append('mapping-onto-declared-namespace')
     return {
         'violations': viol,
         'nontrivial': bool(n_rejected or not model_ok),
